@@ -4614,7 +4614,7 @@ func (n *FlowSpecNLRI) decodeFromBytes(data []byte, options ...*MarshallingOptio
 	}
 	var length int
 	if data[0]>>4 == 0xf && len(data) > 2 {
-		length = int(binary.BigEndian.Uint16(data[:2]))
+		length = int(binary.BigEndian.Uint16(data[:2]) & 0x0fff)
 		data = data[2:]
 	} else if len(data) > 1 {
 		length = int(data[0])
@@ -4734,9 +4734,10 @@ func (n *FlowSpecNLRI) Serialize(options ...*MarshallingOption) ([]byte, error) 
 		length -= 1
 		buf = append([]byte{byte(length)}, buf...)
 	} else {
+		// RFC 8955 4.1: lengths of 240 and more take two octets, 0xfnnn
 		length -= 2
 		b := make([]byte, 2)
-		binary.BigEndian.PutUint16(buf, uint16(length))
+		binary.BigEndian.PutUint16(b, 0xf000|uint16(length))
 		buf = append(b, buf...)
 	}
 	return buf, nil
